@@ -54,10 +54,10 @@ pub fn layout(g: LGen) -> impl Strategy<Value = Layout> {
         (1u8..=4, any::<u8>(), any::<u8>(), 0u8..24, proptest::array::uniform5(prop_oneof![3 => Just(0u16), 2 => 1u16..300])),
         (1u8..=3, prop_oneof![2 => 1u16..4, 3 => 4u16..64], 1u16..8, any::<bool>(), prop_oneof![1 => Just(0u32), 1 => any::<u32>()], prop_oneof![2 => Just(0u8), 1 => 1u8..20]),
         (first_id, entries, (content::pool(10, false, false), any::<u8>(), any::<u8>(), any::<u8>()).prop_map(|(p, a, b, c)| with_big_tile(with_prefix_pair(p, c), a, b)), 0u8..4),
-        (prop_oneof![1 => Just(None), 3 => json::object(false).prop_map(Some)], 0u8..=5, 0u8..=4, any::<[u8; 3]>(), coords, prop_oneof![4 => Just(0u8), 1 => Just(7u8), 1 => 0u8..8], any::<bool>(), prop_oneof![3 => Just(0u32), 2 => 1u32..=u32::MAX]),
+        (prop_oneof![1 => Just(None), 3 => json::object(false).prop_map(Some)], 0u8..=5, 0u8..=4, any::<[u8; 3]>(), coords, prop_oneof![4 => Just(0u8), 1 => Just(7u8), 1 => 0u8..8], any::<bool>(), prop_oneof![3 => Just(0u32), 2 => 1u32..=u32::MAX], prop_oneof![7 => Just(false), 1 => Just(true)]),
     )
         .prop_map(
-            |((internal, level, flag, order, gaps), (depth, fan1, fan2, elide, leaf_shuffle, leaf_gap), (first_id, entries, pool, data_mode), (meta, tile_type, tile_comp, zooms, coords, zero_counters, overlap_prefixes, inline))| Layout {
+            |((internal, level, flag, order, gaps), (depth, fan1, fan2, elide, leaf_shuffle, leaf_gap), (first_id, entries, pool, data_mode), (meta, tile_type, tile_comp, zooms, coords, zero_counters, overlap_prefixes, inline, to_end))| Layout {
                 internal,
                 params: Params { level, flag },
                 order,
@@ -80,6 +80,7 @@ pub fn layout(g: LGen) -> impl Strategy<Value = Layout> {
                 zero_counters,
                 overlap_prefixes,
                 inline,
+                to_end,
             },
         )
         .prop_map(move |mut l| {
